@@ -173,10 +173,23 @@ func ZZC03Or() {
 		}
 		pos += "}"
 	}
-	under := v.Choose(0, 1) == 1
+	// placement: the root, under a key, or first in an array of two with an item-count rule
+	// (what follows the position has to be validated once, whichever members admitted the value)
+	place := v.Choose(0, 2)
+	under := place == 1
 	root := pos
 	if under {
 		root = "{\n  \"v\": " + pos + "\n}"
+	}
+	if place == 2 {
+		// the comma goes before the annotation
+		item := pos
+		if i := indexOf(pos, " // "); i >= 0 {
+			item = pos[:i] + "," + pos[i:]
+		} else {
+			item = pos + ","
+		}
+		root = "[ // {maxItems: 2}\n  " + item + "\n  \"s\"\n]"
 	}
 	v.Observe("schema", root)
 	s := jschema.New("s", root)
@@ -189,6 +202,9 @@ func ZZC03Or() {
 	if under {
 		doc = cat(bs(`{"v":`), doc, bs(`}`))
 	}
+	if place == 2 {
+		doc = cat(bs(`[`), doc, bs(`,"x"]`))
+	}
 	v.Observe("doc", doc)
 	verr := s.Validate(json.New("d", doc))
 	if accepted(sem) {
@@ -198,6 +214,15 @@ func ZZC03Or() {
 		v.Reach("C03/or-reject")
 		v.Assert(verr != nil, "C03/non-member-accepted")
 	}
+}
+
+func indexOf(s, sub string) int {
+	for i := 0; i+len(sub) <= len(s); i++ {
+		if s[i:i+len(sub)] == sub {
+			return i
+		}
+	}
+	return -1
 }
 
 func init() { ZZHarnesses["ZZC03Or"] = ZZC03Or }
